@@ -1146,6 +1146,80 @@ pub fn run(rep: &mut Rep) {
     }
     resumption_with_options(rep);
     requests_at_full_window(rep);
+    torn_packets(rep);
+}
+
+/// One write call of the transport fails after it has accepted the first n bytes of a packet, and the transport works again
+/// afterwards (a write timeout). Whatever the client does about the error, what it has written from then on must still be
+/// a prefix of the whole packets in submission order: nothing may follow a torn packet but the rest of that packet.
+fn torn_packets(rep: &mut Rep) {
+    let kinds: Vec<(&str, OpSpec)> = vec![
+        ("pub0", OpSpec::Publish(PubSpec::simple(0, "torn/a", b"0123456789"))),
+        ("pub1", OpSpec::Publish(PubSpec::simple(1, "torn/b", b"0123456789"))),
+        ("pub2", OpSpec::Publish(PubSpec::simple(2, "torn/c", b"0123456789"))),
+        ("sub", OpSpec::Subscribe(SubSpec::simple("torn/filter"))),
+        ("unsub", OpSpec::Unsubscribe(UnsubSpec::simple("torn/filter"))),
+        ("ping", OpSpec::Ping),
+        ("disc", OpSpec::Disconnect(DiscSpec::default())),
+    ];
+    rep.note(&format!("torn packets: {} request kinds x a transport write that fails once after 0..=5 (and all but one) bytes of the packet and then works again x 3 requests queued behind it: the bytes written are a prefix of the whole packets in submission order", kinds.len()));
+    let mut idx = 97_000_000u64;
+    for (name, first) in &kinds {
+        for n in [0usize, 1, 2, 3, 5, usize::MAX] {
+            for held in [false, true] {
+                let id = format!("torn:{name}:{}:{}", if n == usize::MAX { "last".to_string() } else { n.to_string() }, held as u8);
+                idx += 1;
+                if !rep.take(idx, &id) {
+                    continue;
+                }
+                let followers = [OpSpec::Publish(PubSpec::simple(0, "torn/next", b"BBBB")), OpSpec::Ping, OpSpec::Publish(PubSpec::simple(1, "torn/last", b"CC"))];
+                // twin: the same requests over a healthy transport
+                let mut twin = new_session(rep.seed);
+                let t0 = twin.sim.written_len();
+                twin.sim.start_op(0, first.clone());
+                twin.sim.settle();
+                let first_len = twin.sim.written_len() - t0;
+                if *name != "disc" {
+                    for f in &followers {
+                        twin.sim.start_op(0, f.clone());
+                        twin.sim.settle();
+                    }
+                }
+                let want: Vec<u8> = twin.sim.writer.0.borrow().written[t0..].to_vec();
+                let n = if n == usize::MAX { first_len.saturating_sub(1) } else { n.min(first_len.saturating_sub(1)) };
+                let mut ses = new_session(rep.seed);
+                let w0 = ses.sim.written_len();
+                ses.sim.writer.0.borrow_mut().err_once_at = Some(w0 + n);
+                if held {
+                    // all four requests are queued before the context looks at any of them
+                    ses.sim.hold_ctx = true;
+                }
+                ses.sim.start_op(0, first.clone());
+                ses.sim.settle();
+                for f in &followers {
+                    ses.sim.start_op(0, f.clone());
+                    ses.sim.settle();
+                }
+                if held {
+                    ses.sim.hold_ctx = false;
+                    ses.sim.settle();
+                }
+                let got: Vec<u8> = ses.sim.writer.0.borrow().written[w0..].to_vec();
+                rep.add("evaluations", 1);
+                rep.add("torn_packet_cases", 1);
+                rep.distinct(&("torn", name, n, held));
+                for p in ses.sim.panics.clone() {
+                    report(rep, format!("C01/panic/{p}"), &id, format!("panic: {p}"));
+                }
+                if got.len() > want.len() || got[..] != want[..got.len()] {
+                    report(rep, format!("C01/partial-packet/followed-by-other-bytes/{name}"), &id, format!("a write of the {name} packet failed once after {n} of its {first_len} bytes; written from then on: {:02x?} - not a prefix of the whole packets in submission order {:02x?}; run() = {:?}", &got[..got.len().min(48)], &want[..want.len().min(48)], ses.sim.run_result()));
+                } else {
+                    rep.add("packets_decoded_and_matched", 1);
+                    rep.sample(|| format!("{id}: write failed once after {n} of {first_len} bytes; {} bytes written in all, a prefix of the {} the healthy twin wrote; run() = {:?}", got.len(), want.len(), ses.sim.run_result()));
+                }
+            }
+        }
+    }
 }
 
 /// Requests made while the send window announced by the server (Receive Maximum) is used up: only a further QoS>0 PUBLISH
